@@ -12,7 +12,7 @@ PROPERTY = 'C09'
 LEVEL = 'proof'
 REQUIRED_THEOREMS = ['Properties.C09.exec_knots_valid', 'Properties.C09.knots_valid', 'Properties.C09.binSearch_spec', 'Properties.C09.spline_strictMonoOn',
                      'Properties.C09.spline_maps_endpoints', 'Properties.C09.spline_mapsTo_box',
-                     'Properties.C09.rq_executed_strictMonoOn', 'Properties.C09.tails_identity', 'Properties.C09.exec_linear_cdf_valid', 'Properties.C09.exec_unit_locs_valid', 'Properties.C09.rq_program_strictMonoOn', 'Properties.C09.rq_program_endpoints', 'Properties.C09.rq_program_mapsTo', 'Properties.C09.rq_program_inverse_bijection']
+                     'Properties.C09.rq_executed_strictMonoOn', 'Properties.C09.tails_identity', 'Properties.C09.exec_linear_cdf_valid', 'Properties.C09.exec_unit_locs_valid', 'Properties.C09.rq_program_strictMonoOn', 'Properties.C09.rq_program_endpoints', 'Properties.C09.rq_program_mapsTo', 'Properties.C09.rq_program_inverse_bijection', 'Properties.C09.cubic_program_bijection', 'Properties.C09.quad_program_bijection', 'Properties.C09.quad_tails_program_bijection']
 RULE = ("cases = (family, tails, K, parameter regime, box/tail bound, atom kind) with per-element parameter rows; "
         "atoms: every knot (independent torch recomputation), nextafter neighbours, end-points, tail junction +-1ulp, far tails, "
         "random interior; a case is non-trivial when the model output differs from the input (not the identity) and distinct by "
@@ -184,7 +184,7 @@ def oracle_config(ctx, fam, tails, K, regime, box, B, extra, gen, npts=64):
     case = {'fam': fam, 'tails': tails, 'K': K, 'regime': regime, 'box': box, 'tail_bound': B, 'extra': extra,
             'params_bits': [bits.tensor_bits(p) for p in params]}
     if fam == 'quad' and tails and K == 1:
-        return  # constructor-level rejection (no interior heights): not a spline configuration
+        return  # known finding F27 (listed under C17): constructed without complaint, every call raises IndexError
     if kind != 'ok':
         ctx.fail('in-domain grid rejected with %s' % kind, case, match={'fam': fam, 'symptom': 'raises'})
         return
